@@ -2,7 +2,8 @@
    The phase relation of the blind rotation itself is C09's; here: test-polynomial rotation and extraction,
    the half-open sign rule, dependence on the rounded input only, the scratch array for every n (incl. n > N). *)
 From Coq Require Import ZArith List Lia.
-From TV Require Import Base.Int32 Model.Numeric Model.Lwe Model.Poly Model.Tlwe Model.Tgsw Model.Bootstrap Proofs.Bootstrap.
+From TV Require Import Base.Int32 Ring.NegaRing Model.Numeric Model.Lwe Model.Poly Model.Tlwe Model.Tgsw Model.Bootstrap
+  Proofs.Numeric Proofs.Tlwe Proofs.Tgsw Proofs.BlindRotate Proofs.Bootstrap Proofs.BootPhase.
 Import ListNotations.
 Local Open Scope Z_scope.
 
@@ -39,6 +40,34 @@ Print Assumptions C04_scratch_sized_N_refuted_before_fix.
 Theorem C04_zero_exponents_skip : forall l B bk acc, blind_rotate l B bk (repeat 0 (length bk)) acc = Some acc.
 Proof. exact blind_rotate_zero_exponents. Qed.
 Print Assumptions C04_zero_exponents_skip.
+
+(* blind-rotate-and-extract, for a bootstrapping key whose elements act like the bits s_i up to beta (C09 gives this for TGSW
+   encryptions of the key bits): for every n (n > N included), every exponent vector, every barb in [0,2N) and every test polynomial,
+   the extracted sample's phase under the extracted key is coefficient 0 of X^(sum a_i s_i + 2N - barb) * v plus an error <= steps * beta *)
+Theorem C04_bre_phase : forall N, (0 < N)%nat -> forall key k, wf_tkey N k key -> forall l B bk ss beta,
+  good_key N key k l B bk ss beta -> 0 <= beta ->
+  forall (bara : list nat) (barb : nat) v, length bara = length bk -> Forall (fun a => (a < 2 * N)%nat) bara -> (barb < 2 * N)%nat -> lenN N v ->
+  exists smp e0, blind_rotate_extract l B k v bk (Z.of_nat barb) (map Z.of_nat bara) = Some smp /\
+    eqm32 (lwe_phase (tlwe_extract_key key) smp) (Shn N (expo bara ss + (2 * N - barb)) (ofl v) 0%nat + e0) /\
+    Z.abs e0 <= steps bara * beta.
+Proof. exact bre_phase. Qed.
+Print Assumptions C04_bre_phase.
+
+(* ... and coefficient 0 of X^q * v is the ((-q) mod 2N)-th coefficient of the anticyclic extension of v, for every q *)
+Theorem C04_rotation_coefficient0 : forall N, (0 < N)%nat -> forall v q, lenN N v ->
+  eqm32 (Shn N q (ofl v) 0%nat) (anti v ((- Z.of_nat q) mod (2 * Z.of_nat N))).
+Proof. exact Shn_coeff0_anti. Qed.
+Print Assumptions C04_rotation_coefficient0.
+
+(* bootstrapping without key switch (2N in the domain of the modulus-switch theorem of C13, e.g. N = 1024): +mu iff the rotation
+   exponent p = round(2N b) - sum_i round(2N a_i) s_i mod 2N lies in [0,N), -mu otherwise, plus an error of at most n * beta *)
+Theorem C04_bootstrap_woKS_phase : forall N, (0 < N)%nat -> inDomain (2 * Z.of_nat N) -> forall key k, wf_tkey N k key ->
+  forall l B bk ss beta mu x, good_key N key k l B bk ss beta -> 0 <= beta -> length (fst x) = length bk ->
+  exists smp e0, bootstrap_woKS true l B k N bk mu x = Some smp /\
+    eqm32 (lwe_phase (tlwe_extract_key key) smp) ((if rot_exponent N ss x <? Z.of_nat N then mu else w32 (- mu)) + e0) /\
+    Z.abs e0 <= Z.of_nat (length bk) * beta.
+Proof. exact bootstrap_woKS_phase. Qed.
+Print Assumptions C04_bootstrap_woKS_phase.
 
 Example C04_nonvacuous :
   rotated_testvect [10;20;30;40] 5 = Some [-20;-30;-40;10] /\ anti [10;20;30;40] 5 = -20 /\ anti [10;20;30;40] 3 = 40 /\
